@@ -32,7 +32,7 @@ fn meta() -> Meta {
     Meta {
         id: "C19",
         level: "fault_enumeration",
-        rule: "for every configuration (naming x cleanup x write mode x 0/1 earlier run) the trace of file-system points of the history W W W5 W W R W F Reopen W5 W W is recorded fault-free; then every (site, occurrence) x burst in 1..3 is failed plus every pair of two single faults at different sites (quick: for the direct-mode configurations without earlier run; thorough: all); distinct_nontrivial = distinct (configuration, site, occurrence, burst) whose fault hits a rotation, cleanup, compression or initialisation step (not a plain write); plus 12 background-cleanup configurations under the scheduler's canonical schedule, real ENOSPC on the compression target (symlink to /dev/full planted at gz_create), a duplicate stream that is a full device for three records, and the current file on a full device (every failure reported, the empty file is not closed by the size criterion); the log directory removed for three records and re-created (no panic, reported, logging resumes); a rename that really fails because the target name is a directory; a start whose rename fails for real (name too long); buffered / asynchronous mode with the current file on a full device (rotation, shutdown, reopen_output, reset_flw; recovery after the device problem is over); the size criterion holds except for operations whose rotation attempt hit a fault; the failing-duplicate-stream scenario has a second writer (log_to_file_and_writer) whose file must hold every record; no file descriptor left (soft RLIMIT_NOFILE = 0: every open and every directory listing really fails with EMFILE, rename / remove work) for three rotating records between three before and three after, naming x {direct, buffered} x clock step {0, 1 s} x cleanup {none, KeepLogFiles}: no panic, nothing logged before is destroyed, losses reported, the records after are written; the same with the logger stopped and a new one started (append on / off) while no descriptor is available; a fourth burst length 'until the faults are cleared'; with the interposition shim loaded every libc call of the subject that changes the directory tree (mkdir, rename, link, open with O_CREAT / O_TRUNC, unlink, symlink; not opendir) is failed once (thorough: also in a burst of two and until cleared), whether or not a guarded hook precedes it; nested records (a message that logs while it is formatted) on a full device: both failures of a call reported; create_symlink with its path taken by a non-empty directory (12 cases): every record written, one file per record, the problem reported",
+        rule: "for every configuration (naming x cleanup x write mode x 0/1 earlier run) the trace of file-system points of the history W W W5 W W R W F Reopen W5 W W is recorded fault-free; then every (site, occurrence) x burst in 1..3 is failed plus every pair of two single faults at different sites (quick: for the direct-mode configurations without earlier run; thorough: all); distinct_nontrivial = distinct (configuration, site, occurrence, burst) whose fault hits a rotation, cleanup, compression or initialisation step (not a plain write); plus 12 background-cleanup configurations under the scheduler's canonical schedule, real ENOSPC on the compression target (symlink to /dev/full planted at gz_create), a duplicate stream that is a full device for three records, and the current file on a full device (every failure reported, the empty file is not closed by the size criterion); the log directory removed for three records and re-created (no panic, reported, logging resumes); a rename that really fails because the target name is a directory; a start whose rename fails for real (name too long); buffered / asynchronous mode with the current file on a full device (rotation, shutdown, reopen_output, reset_flw; recovery after the device problem is over); the size criterion holds except for operations whose rotation attempt hit a fault; the failing-duplicate-stream scenario has a second writer (log_to_file_and_writer) whose file must hold every record; no file descriptor left (soft RLIMIT_NOFILE = 0: every open and every directory listing really fails with EMFILE, rename / remove work) for three rotating records between three before and three after, naming x {direct, buffered} x clock step {0, 1 s} x cleanup {none, KeepLogFiles}: no panic, nothing logged before is destroyed, losses reported, the records after are written; the same with the logger stopped and a new one started (append on / off) while no descriptor is available; a fourth burst length 'until the faults are cleared'; with the interposition shim loaded every libc call of the subject that changes the directory tree (mkdir, rename, link, open with O_CREAT / O_TRUNC, unlink, symlink; for the number namings also opendir) is failed once (thorough: also in a burst of two and until cleared), whether or not a guarded hook precedes it; nested records (a message that logs while it is formatted) on a full device: both failures of a call reported; create_symlink with its path taken by a non-empty directory (12 cases): every record written, one file per record, the problem reported",
         assumptions: vec![
             "a failing file-system call has no effect and returns an io::Error of kind PermissionDenied (never NotFound, which two rename sites treat as benign)".into(),
             "faults are injected through the guarded fs_point hook directly before the call (the sandbox runs as root, permission bits do not bite)".into(),
@@ -1369,6 +1369,7 @@ fn run(c: &Case, faults: &[FaultSpec], dev_full: Option<&str>) -> Result<RunObs,
         g.faults = faults.to_vec();
         if crate::hooks::shim_available() && !c.cfg.bg_cleanup {
             g.sys_dir = Some(env.dir.clone());
+            g.sys_fail_listings = listings_may_fail(c);
         }
     }
     let mut ops = Vec::new();
@@ -1619,6 +1620,12 @@ fn judge_obs(c: &Case, o: &RunObs, reference: Option<&Reference>) -> Result<(), 
     Ok(())
 }
 
+/// A failing directory listing (opendir) is placed for the number namings only: for the timestamp
+/// namings its reports are not classified yet (DESIGN, C19 (d)).
+fn listings_may_fail(c: &Case) -> bool {
+    matches!(c.cfg.naming(), Some(NamingK::Numbers | NamingK::NumbersDirect))
+}
+
 fn occ_class(c: &Case, site: &str, occ: usize) -> &'static str {
     let _ = c;
     match (site, occ) {
@@ -1784,7 +1791,7 @@ fn run_unit(tier: &str, unit: usize, out: &mut Out) {
         out.count("system_call_points", o.sys_trace.len() as u64);
         for (n, op) in o.sys_trace.iter().enumerate() {
             // (a failing directory listing is placed by the descriptor scenarios only, see DESIGN)
-            if *op == "sys:opendir" {
+            if *op == "sys:opendir" && !listings_may_fail(c) && std::env::var_os("FXV_OPENDIR_FAULTS").is_none() {
                 continue;
             }
             for burst in if tier == "quick" { vec![1] } else { vec![1, 2, 1000] } {
